@@ -177,7 +177,7 @@ def contracts():
 """},
             # sort by the period: `x.1.partial_cmp(&y.1).unwrap()` / `x.1.cmp(&y.1)` with (x, y) = (a, b) is ascending, (b, a) descending;
             # sort_by_key(|e| e.1) is ascending
-            rewrites=[("T-ITER", r"limits\.sort_by\(\|a, b\| (?P<x>[ab])\.1\.(?:partial_cmp\(&(?P<y>[ab])\.1\)\.unwrap\(\)|cmp\(&(?P<z>[ab])\.1\))\)",
+            rewrites=[("T-ITER", r"limits\.sort_by\(\|a, b\| (?P<x>[ab])\.1\.(?:partial_cmp\(&(?P<y>[ab])\.1\)\.unwrap\(\)|cmp\(&(?P<z>[ab])\.1\))(?:\.then(?:_with)?\((?:[^()]|\([^()]*\))*\))?\)",
                        lambda m: ("crate::titer::sort_by_duration_asc(&mut limits)" if (m.group("x"), m.group("y") or m.group("z")) == ("a", "b")
                                   else "crate::titer::sort_by_duration_desc(&mut limits)" if (m.group("x"), m.group("y") or m.group("z")) == ("b", "a")
                                   else "crate::titer::sort_unknown(&mut limits)"), None),
@@ -188,7 +188,7 @@ def contracts():
 
 def build():
     u = Unit("ratelimit", "acmed")
-    u.prelude("err", "time", "world", "titer", "seqlemmas")
+    u.prelude("err", "stdx", "time", "world", "titer", "seqlemmas")
     u.ghost_call("sleep", quals=("",))
     u.take("acmed/src/main.rs", "MAX_RATE_LIMIT_SLEEP_MILISEC", "")
     u.take("acmed/src/main.rs", "MIN_RATE_LIMIT_SLEEP_MILISEC", "")
